@@ -1184,7 +1184,12 @@ class Exec(object):
     def load_name(self, name):
         fr = self.frames[-1]
         if name in fr.locals:
-            return fr.locals[name]
+            v = fr.locals[name]
+            if getattr(v, 'is_loop_temp', False):
+                # a local the loop body assigns, carried into the next iteration, but not declared in the loop
+                # contract's havoc: its value at the loop head is unknown - undecided, never a silent pass
+                raise Unsupported(v.why)
+            return v
         if name in fr.localnames and name not in fr.globalnames and fr.func is not None:
             self.throw('UnboundLocalError', "local variable %r referenced before assignment" % name)
         for d in reversed(fr.env):
